@@ -832,7 +832,11 @@ func (c *clusterClient) doresultfn(
 				nc = c.redirectOrNew(addr, cc, cm.Slot(), mode)
 			}
 			if hasInit && ei < i { // find out if there is a transaction block or not.
-				for mi = i; mi >= 0 && !isMulti(commands[mi]) && !isExec(commands[mi]); mi-- {
+				mi = i
+				if isExec(commands[i]) { // a redirected EXEC closes the block that starts at the previous MULTI
+					mi--
+				}
+				for ; mi >= 0 && !isMulti(commands[mi]) && !isExec(commands[mi]); mi-- {
 				}
 				for ei = i; ei < len(commands) && !isMulti(commands[ei]) && !isExec(commands[ei]); ei++ {
 				}
@@ -859,7 +863,7 @@ func (c *clusterClient) doresultfn(
 					continue // the transaction has been added to the retries, go to the next cmd.
 				}
 			}
-			if hasInit && mi < i && i < ei && mi >= 0 && isMulti(commands[mi]) {
+			if hasInit && mi < i && i <= ei && mi >= 0 && isMulti(commands[mi]) {
 				continue // the current cmd is in the processed transaction and has been added to the retries.
 			}
 			mu.Lock()
